@@ -1,6 +1,7 @@
 # C15, second half: the real Pratt loops (ExprParser::parse_expr_bp and Parser::parse_expr_bp) on a symbolic token stream.
 # exec()'d from c15.py.
 from mirsym.models import model as _model
+import itertools
 
 F = P.field
 OPTOK = {}     # TokenKind variant index -> name, for the operator tokens
@@ -312,6 +313,54 @@ def pratt_postfix(owner, parser_struct):
             ck.require(ex, 'G5_postfix_binds_tightest', r.pc, None, z3.BoolVal(good), lambda mm, w=dict(w0, top=top): w, lambda mm, w: 'postfix-under-infix')
 
 
+ck.declare('G6_special_form_operand_takes_postfix', 'a [NOT] BETWEEN b AND c IS [NOT] NULL and a [NOT] LIKE b IS [NOT] NULL; both Pratt loops',
+           'the last operand of the special form is parsed at the prefix level including its postfix (documented level 11 binds tightest): BETWEEN(a, b, c IS NULL) / LIKE(a, b IS NULL), never (a BETWEEN b AND c) IS NULL; the two parsers agree')
+
+
+def pratt_special(owner, parser_struct):
+    def start(st, toks):
+        st.env['tokens'] = toks[1:]
+        st.env['tokpos'] = 0
+        p = Struct(parser_struct, {}, lazy='P')
+        p.fields[F(parser_struct, 'current')] = toks[0]
+        p.fields[F(parser_struct, 'peeked')] = none('Option<Token>')
+        if parser_struct == 'ExprParser':
+            p.fields[F(parser_struct, 'depth')] = Int(z3.BitVecVal(0, 64), False)
+        return run(st, f'{owner}::parse_expr_bp', [ref(p), Int(z3.BitVecVal(0, 8), False)])
+
+    kind_of = lambda e, st: e.load(F('Expr', 'kind'), None, st)
+    for form, neg_form, neg_post in itertools.product(('Between', 'Like'), (False, True), (False, True)):
+        st = ex.new_state()
+        toks = [int_token(st, 0, 0)] + ([kw(st, 'Not', 1)] if neg_form else [])
+        i = len(toks)
+        if form == 'Between':
+            toks += [kw(st, 'Between', i), int_token(st, 1, i + 1), kw(st, 'And', i + 2), int_token(st, 2, i + 3)]
+        else:
+            toks += [kw(st, 'Like', i), int_token(st, 1, i + 1)]
+        i = len(toks)
+        toks += [kw(st, 'Is', i)] + ([kw(st, 'Not', i + 1)] if neg_post else []) + [kw(st, 'Null', i + 1 + neg_post)]
+        res = start(st, toks)
+        ck.note_path_problem(res, f'{owner} {form} with postfix')
+        for r in res:
+            if r.status not in ('return', 'panic'):
+                continue
+            good, top = False, str(r.status)
+            if r.status == 'return' and r.retval.variant == 'Ok':
+                k = kind_of(r.retval.fields[('Ok', 0)], r.st)
+                top = str(k.variant)
+                if k.variant == form:
+                    fld = [v_ for (kk, v_) in k.fields.items() if isinstance(kk, tuple) and kk[0] == form]
+                    # the operand fields are boxed expressions in declaration order; the last boxed one is high / pattern
+                    boxed = [v_ for v_ in fld if isinstance(v_, Ptr)]
+                    if boxed:
+                        inner = kind_of(boxed[-1].load(r.st), r.st)
+                        good = inner.variant == 'IsNull'
+            w0 = {'parser': owner, 'special': form, 'negated': neg_form, 'postfix': 'IS NOT NULL' if neg_post else 'IS NULL', 'top': top}
+            ck.require(ex, 'G6_special_form_operand_takes_postfix', r.pc, None, z3.BoolVal(bool(good)), lambda mm, w=w0: w, lambda mm, w: 'postfix-lifted-over-special-form')
+
+
+pratt_special('ExprParser', 'ExprParser')
+pratt_special('Parser', 'Parser')
 pratt_postfix('ExprParser', 'ExprParser')
 pratt_postfix('Parser', 'Parser')
 pratt_prefix('ExprParser', 'ExprParser')
